@@ -39,6 +39,10 @@ enum color { RED, GREEN };
 union val { int i; enum color c; };
 int walk(node_t* n, union val v);
 int walkabout(struct other* o);
+struct request { int id; };
+struct response { int code; };
+typedef int (*handler)(struct request* rq, struct response* rs);
+struct server { handler h; int port; };
 extern struct leaf g_leaf;
 extern int g_count;
 enum { ANON_A = 1, ANON_B };
@@ -52,6 +56,11 @@ enum { ANON_A = 1, ANON_B };
             "node_t": decl("type", "node_t", ["node"], ["node_t"]),
             "color": decl("type", "color", [], ["color", "color_RED", "color_GREEN"]),
             "val": decl("type", "val", ["color"], ["val"]),
+            # types reached only through a function pointer's signature (FunctionParameter edges)
+            "request": decl("type", "request", [], ["request"]),
+            "response": decl("type", "response", [], ["response"]),
+            "handler": decl("type", "handler", ["request", "response"], ["handler"], edges=["FunctionParameter", "FunctionParameter"]),
+            "server": decl("type", "server", ["handler"], ["server"]),
             "walk": decl("function", "walk", ["node_t", "val"], ["walk"]),
             "walkabout": decl("function", "walkabout", ["other"], ["walkabout"]),
             "g_leaf": decl("var", "g_leaf", ["leaf"], ["g_leaf"]),
@@ -83,8 +92,8 @@ int topfn(Top t);
                            edges=["Method", "Method"],
                            # a class that is emitted is emitted with its methods (CompInfo::codegen)
                            carry=["root::ns::In_meth", "root::ns::In_smeth"]),
-            "ns::In_meth": decl("function", "ns::In_meth", ["ns::In"], ["root::ns::In_meth"], alt=False),
-            "ns::In_smeth": decl("function", "ns::In_smeth", [], ["root::ns::In_smeth"], alt=False),
+            "ns::In_meth": decl("method", "ns::In_meth", ["ns::In"], ["root::ns::In_meth"], alt=False),
+            "ns::In_smeth": decl("method", "ns::In_smeth", [], ["root::ns::In_smeth"], alt=False),
             "ns::InT": decl("type", "ns::InT", ["ns::In"], ["root::ns::InT"]),
             "ns::nsfn": decl("function", "ns::nsfn", ["ns::InT"], ["root::ns::nsfn"]),
             "ns::Inner2": decl("type", "ns::Inner2", ["ns::In"], ["root::ns::Inner2"]),
@@ -286,6 +295,8 @@ def replay_family(res, tier, name, fam):
             a += ["--blocklist-item", b]
         if not c["rec"]:
             a.append("--no-recursive-allowlist")
+        if not c.get("fns", True):
+            a.append("--ignore-functions")
         jobs.append({"id": "c%05d" % i, "args": a, "callbacks": None})
     d, out = C.run_cases_logged(jobs, "c09-run-" + name)
     invs = C.inventory([os.path.join(d, j["id"] + ".rs") for j in jobs])
@@ -312,7 +323,7 @@ def replay_family(res, tier, name, fam):
             blocked_names |= set(fam["decls"][b]["emits"])
         missing = sorted(want - set(got))
         extra = sorted(n for n in set(got) - want if not helper_name(n))
-        shape = "%s:rec=%s:bl=%d" % ("+".join(sorted(p["flag"] for p in c["pats"])), c["rec"], len(c["bl"]))
+        shape = "%s:rec=%s:bl=%d:fns=%s" % ("+".join(sorted(p["flag"] for p in c["pats"])), c["rec"], len(c["bl"]), c.get("fns", True))
         if blocked_names & set(got):
             res.violation("blocklisted-emitted:" + shape, {"family": name, "case": c, "names": sorted(blocked_names & set(got))})
         elif missing:
